@@ -35,7 +35,7 @@ class Dim:
         """parameter dict of this dimension at conditioning value(s) `given` (reference, written independently)"""
         th = dict(self.fixed)
         for p, (a, b) in self.dep_coef.items():
-            th[p] = a + b * given
+            th[p] = a + b / (1 + given * given)
         return th
 
     def ref(self, given=None):
@@ -67,10 +67,11 @@ def build_model(h, struct, rot=0, prefix="m", n_dependent=2):
             b = h.real(f"{prefix}{i}_{p}_b", 0.05, 0.4)
             coef[p] = (a, b)
 
-            def lin(x, a, b):
-                return a + b * x
+            def bounded(x, a, b):
+                # admissible for every real conditioning value (normal / von Mises variables may be negative)
+                return a + b / (1 + x * x)
 
-            d = DF(lin)
+            d = DF(bounded)
             d.parameters = {"a": a, "b": b}
             funcs[p] = d
         tmpl = fam.make(**{f"f_{p}": v for p, v in fixed.items()})
